@@ -55,15 +55,19 @@ def classify(prop, r, v):
         for f in load_known_findings():
             if f.get("status") == "known" and f["signature"].get("kf_tag") == v["kf"] and prop in f["properties"]:
                 return f
-    pan = " ".join(r.get("panics", []))
+    # panics recorded while this query ran (group family), else every panic of the work item
+    pan = " ".join(v["panics"] if "panics" in v else r.get("panics", []))
     for f in load_known_findings():
         if f.get("status") != "known" or prop not in f["properties"]:
             continue
         sig = f["signature"]
         if "kf_tag" in sig or "oracle" in sig or "op" in sig:
             continue
-        if "table_kind" in sig and not (sig["table_kind"] == "allnull" and r.get("table") == 1):
-            continue
+        if "table_kind" in sig:
+            # tables of MC_query whose column is NULL in every row: AllNull (1): n, nf, ns, l; One (3): n, l
+            sql = v.get("sql", "")
+            if not (sig["table_kind"] == "allnull" and (r.get("table") == 1 or (r.get("table") == 3 and re.search(r"\((n|l)\)", sql)))):
+                continue
         if "sql_re" in sig and not re.search(sig["sql_re"], v.get("sql", "")):
             continue
         if "what_re" in sig and not re.search(sig["what_re"], v.get("what", "")):
@@ -157,7 +161,7 @@ def run(prop, tier, replay_path=None):
                 by_query.setdefault((r["family"], r["table"], r["class"], v.get("sql", "")), []).append((r, v))
                 continue
             p = save_replay(prop, len(violations), {"kind": "qsem", "src": r["src"], "family": r["family"], "table": r["table"], "class": r["class"], "layout_idx": r["layout_idx"], "sql": v.get("sql")})
-            violations.append(("%s (table %s, class %s, layout %s): %s -> %s | panics %s" % (v["oracle"], r["table"], r["class"], r["layout"], v.get("sql", ""), v["what"], r.get("panics", [])[:1]), p))
+            violations.append(("%s (table %s, class %s, layout %s): %s -> %s | panics %s" % (v["oracle"], r["table"], r["class"], r["layout"], v.get("sql", ""), v["what"], (v["panics"] if "panics" in v else r.get("panics", []))[:1]), p))
     if prop == "C02":
         for (family, table, cls, sql), lst in by_query.items():
             layouts_wrong = sorted(set(r["layout"] for r, _ in lst))
